@@ -23,10 +23,12 @@ For random real parameter points above all thresholds and away from the poles it
 usage: search_C09.py <seed> <n> | --replay <file>
 """
 import json
+import os
 import random
 import sys
 
 import common  # noqa: F401
+import lib_C09
 import numpy as np
 import sympy as sp
 
@@ -448,9 +450,10 @@ def main():
     if sys.argv[1] == "--replay":
         doc = json.load(open(sys.argv[2]))
         try:
-            fails = run_case(doc["replay"]["case"])
+            fails = lib_C09.run_with_prefix(run_case, doc["replay"]["case"])
         except Exception as exc:  # noqa: BLE001
-            fails = [("exception_" + type(exc).__name__, f"{type(exc).__name__}: {exc}"[:300])]
+            kind_ = doc["replay"]["case"].get("kind", "")
+            fails = [("exception_" + type(exc).__name__ + "/" + kind_, f"{type(exc).__name__}: {exc}"[:300])]
         want = doc.get("signature")
         mine = [f for f in fails if f[0] == want] if want and not want.startswith("unproved") else \
                [f for f in fails if f[0] != KNOWN]
@@ -459,7 +462,7 @@ def main():
     seed, n = int(sys.argv[1]), int(sys.argv[2])
     cases = gen_cases(seed, n)
     failures, kinds, samples, distinct, nev = [], {}, [], set(), 0
-    for c in cases:
+    for idx, c in enumerate(cases):
         try:
             fails = run_case(c)
         except Exception as exc:  # noqa: BLE001
@@ -471,12 +474,13 @@ def main():
         if len(samples) < 3 and c["kind"] not in [s_["kind"] for s_ in samples]:
             samples.append({k: c[k] for k in ("kind", "n", "npoles", "L", "phsp", "s", "m")})
         for sig, what in fails:
-            failures.append({"signature": sig, "what": what, "case": c})
+            failures.append({"signature": sig, "what": what, "case": c, "idx": idx})
     seen, uniq = set(), []
     for f in failures:
         if f["signature"] not in seen:
             seen.add(f["signature"])
             uniq.append(f)
+    uniq = lib_C09.make_replayable(os.path.abspath(__file__), cases, uniq[:20], skip=(KNOWN,))
     print(json.dumps({"evaluations": nev, "distinct": len(distinct), "samples": samples, "kinds": kinds,
                       "failures": uniq[:20]}))
 
